@@ -16,10 +16,14 @@ IsTrunc(e) == Len(e.mode) > 6 /\ SubSeq(e.mode, 1, 6) = "trunc:"
 (* child kinds of ExtSat.tla: pad = ReadAllThenWrite, earlypad = WriteFirstThenRead, interleave = WriteWhileReading,          *)
 (* noread = ExitWithoutReading (no verdict printed: the call must return, and not with a result); inkb = KiB written to stdin *)
 IsNoRead(e) == Len(e.mode) > 7 /\ SubSeq(e.mode, 1, 7) = "noread:"
+(* lategarbage:N = a complete answer, N bytes of comments, then a line that is not DIMACS: a garbled reply, wherever the garbage is *)
+IsGarbled(e) == Len(e.mode) > 12 /\ SubSeq(e.mode, 1, 12) = "lategarbage:"
 JudgeVolume(e) ==
   /\ Report("C16:call_returns", e.finished)
   /\ (e.finished /\ IsNoRead(e)) => Report("C16:no_verdict_is_not_a_result", e.res \in {"unknown", "abort"})
-  /\ (e.finished /\ ~IsTrunc(e) /\ ~IsNoRead(e)) => Report("C16:reply_kept", e.res = "sat" /\ 1 \in ToSet(e.model) /\ Cardinality(ToSet(e.model)) = 6)
+  /\ (e.finished /\ IsGarbled(e)) => /\ Report("C16:garbled_reply_is_not_a_result", e.res \in {"unknown", "abort"})
+                                     /\ Report("C17:garbled_reply_is_not_a_result", e.res \in {"unknown", "abort"})
+  /\ (e.finished /\ ~IsTrunc(e) /\ ~IsNoRead(e) /\ ~IsGarbled(e)) => Report("C16:reply_kept", e.res = "sat" /\ 1 \in ToSet(e.model) /\ Cardinality(ToSet(e.model)) = 6)
   \* a model cut after K literals (no terminating 0), wherever the cut falls, is not a result (also C17)
   /\ (e.finished /\ IsTrunc(e)) => /\ Report("C16:truncated_model_is_not_a_result", e.res \in {"unknown", "abort"})
                                    /\ Report("C17:truncated_model_is_not_a_result", e.res \in {"unknown", "abort"})
